@@ -210,6 +210,12 @@ def run(ctx):
         cases.append((gen_case(rng, "collision", ctx.thorough())[0], "collision"))
     for _ in range(ngen):
         cases.append((gen_case(rng, "edits", ctx.thorough())[0], "edits"))
+    # the search for the writer-order obligation (index entry before pack upload): only when the proof
+    # stage is broken or the source fact says so, and once in the thorough tier as a regression
+    wbi = (meta or {}).get("pack_written_before_indexed", "")
+    if (not r["ok"]) or ctx.thorough() or not str(wbi).startswith("process: write_bytes"):
+        for fp in ([5] if r["ok"] else [5, 4, 6]):
+            cases.append(("fault %d %d" % (rng.randrange(1, 2 ** 40), fp), "fault"))
     outs = []
     B = 6
     for i in range(0, len(cases), B):
@@ -237,6 +243,13 @@ def run(ctx):
         if not out.startswith("ok"):
             bad("a backup of the edit script did not complete: " + out[:200], case, -1, out[:400]); continue
         segs = [s.strip() for s in out.split("|")][1:]
+        fault = None
+        if segs and segs[0].startswith("FAULT"):
+            fault = dict(x.split("=") for x in segs[0].split()[1:])
+            segs = segs[1:]
+            hist["fault_scenarios"] = hist.get("fault_scenarios", 0) + 1
+            if fault["failed"] != "1" or fault["snapshots"] != "0":
+                bad("a backup whose pack upload failed reported success or left a snapshot", case, -1, str(fault))
         end = segs[-1]
         bks = [parse_backup(s) for s in segs[:-1]]
         if "clean=1" not in end:
@@ -290,6 +303,8 @@ def run(ctx):
                     hist["in_run_duplicates"] += n - 1
                 if x in occ and n > occ[x]:
                     bad("a blob was stored more often than it occurs in the new data (outside the in-run window)", case, k, "%s stored %d times, occurs %d times" % (x, n, occ[x]))
+            if b.get("dangling", 0) != 0:
+                bad("the index lists blobs of a pack file that is not in the repository (an index entry reached the repository before its pack)", case, k, "%d blobs" % b["dangling"])
             if b["removes"] != 0:
                 bad("a backup removed files from the repository", case, k, str(b["removes"]))
             if (b["index_writes"] == 0) != (len(b["packs"]) == 0):
@@ -368,7 +383,8 @@ def run(ctx):
             for t, _, ids in b["packs"]:
                 if t in (0, 1):
                     ml += [str(t), str(len(ids))] + [str(i) for i in ids]
-            mlines.append(" ".join(ml)); mref.append((case, k, NEW, STORED))
+            if len(ALL) <= 20000:      # the list-based extracted model is quadratic; the fault scenario has 65536 blobs
+                mlines.append(" ".join(ml)); mref.append((case, k, NEW, STORED))
             b["files"] = files
             prev = b
     # ---- correspondence: the observations are runs of the extracted model
